@@ -1544,6 +1544,17 @@ impl LsmTree {
         let mut output_setsum = Setsum::default();
         // NOTE(rescrv):  Sometimes compaction generates the same file as input and output.  We are
         // not to remove the file in that case.
+        // Hold a reference to every output from before it is linked until the new version holds
+        // one:  the same file may be live under an old version that is being released right now.
+        struct Pins<'a>(&'a LsmTree, Vec<Setsum>);
+        impl Drop for Pins<'_> {
+            fn drop(&mut self) {
+                for setsum in self.1.drain(..) {
+                    self.0.unref_sst(setsum);
+                }
+            }
+        }
+        let mut pins = Pins(self, vec![]);
         for path in paths.iter() {
             let metadata = self.file_manager.stat(path)?;
             let setsum = Setsum::from_digest(metadata.setsum);
@@ -1552,6 +1563,8 @@ impl LsmTree {
             mani_edit.add(&setsum.hexdigest())?;
             let new_path = SST_FILE(&self.root, setsum);
             COMPACTION_LINK.click();
+            self.references.inc(setsum);
+            pins.1.push(setsum);
             match hard_link(path, &new_path) {
                 Ok(_) => {}
                 Err(err) if err.kind() == ErrorKind::AlreadyExists => {}
@@ -1737,14 +1750,22 @@ impl LsmTree {
             return;
         }
         for setsum in version.setsums() {
-            if self.references.dec(setsum) {
-                let sst_path = SST_FILE(&self.root, setsum);
-                let trash_path = TRASH_SST(&self.root, setsum);
-                // SAFETY(rescrv):  This will just leave an orphan.
-                // The verifier will pick up on there being orphans.
-                let _ = rename(sst_path, trash_path);
-            }
+            self.unref_sst(setsum);
         }
+    }
+
+    // Drop one reference to an sst.  The file goes to the trash with the last reference, while
+    // the reference counter is held:  a compaction that is about to produce the same file again
+    // (same contents, same name) takes its reference first, so it either keeps this file alive or
+    // finds it gone and links a new one.
+    fn unref_sst(&self, setsum: Setsum) {
+        self.references.dec_and(setsum, || {
+            let sst_path = SST_FILE(&self.root, setsum);
+            let trash_path = TRASH_SST(&self.root, setsum);
+            // SAFETY(rescrv):  This will just leave an orphan.
+            // The verifier will pick up on there being orphans.
+            let _ = rename(sst_path, trash_path);
+        });
     }
 
     pub fn get(&self, key: &[u8]) -> Result<Option<Vec<u8>>, SError> {
